@@ -47,7 +47,7 @@ class Generator(Curve, Point):
         Point.__init__(self, basis[0], basis[1], self)
         self._powers: list[Point] = []
         Gp: Point = self
-        for _ in range(256):
+        for _ in range(max(256, order.bit_length())):
             self._powers.append(Gp)
             Gp += Gp
         assert p % 4 == 3, "p % 4 must be 3 due to modular_sqrt optimization"
@@ -142,7 +142,7 @@ class Generator(Curve, Point):
         assert self._order is not None
         e %= self._order
         P = self._infinity
-        for bit in range(256):
+        for bit in range(len(self._powers)):
             # add the power of the generator every time to make it more time-deterministic
             a = [P, P + self._powers[bit]]
             # choose the correct result
